@@ -388,12 +388,21 @@ impl FeoxStore {
             sector += sectors_needed as u64;
         }
 
+        // retire_extents journals each chunk of extents on its own. An expired winner
+        // must never be retired in an earlier transaction than the older generation it
+        // beat, or an interrupted recovery brings the older value back: stale
+        // duplicates first, expired winners only once those are gone.
+        if !self.read_only {
+            disk.retire_extents(&retired_extents)?;
+        }
+
+        let mut expired_extents = Vec::new();
         if let Some(now) = recovery_time {
-            self.remove_expired_recovery_winners(now, format, &mut retired_extents)?;
+            self.remove_expired_recovery_winners(now, format, &mut expired_extents)?;
         }
 
         if !self.read_only {
-            disk.retire_extents(&retired_extents)?;
+            disk.retire_extents(&expired_extents)?;
         }
 
         if last_end < total_sectors {
